@@ -135,8 +135,12 @@ type prioMon struct {
 }
 
 func (m *prioMon) Hash() uint64 {
-	h := vrt.Mix(uint64(m.total), uint64(m.delivered), uint64(m.released), uint64(m.handling), uint64(m.faulted), uint64(m.faultKind), uint64(m.sentAfterFault))
-	h = vrt.Mix(h, hashInts(m.nextSeq), hashInts(m.written))
+	h := vrt.Mix(uint64(m.total), uint64(m.handling), uint64(m.faulted), uint64(m.faultKind), uint64(m.sentAfterFault))
+	if m.cfg.Mode != "endless" {
+		// in endless mode runs have unbounded length: the counters below grow for
+		// ever and carry no information the oracles of that mode use
+		h = vrt.Mix(h, uint64(m.delivered), uint64(m.released), hashInts(m.nextSeq), hashInts(m.written))
+	}
 	ks := make([]uint, 0, len(m.inflight))
 	for k := range m.inflight {
 		ks = append(ks, k)
@@ -328,7 +332,9 @@ func (m *prioMon) onDeliver(w *vrt.World, ev *vrt.Event) {
 		m.f.fail("C02", "item %v of the input registered for priority %d delivered with priority %d", it, want, p)
 	}
 	rough := isRough(m.cfg)
-	if it.Seq != m.nextSeq[it.In] && !(rough && it.Seq > m.nextSeq[it.In] && it.Seq < m.written[it.In]) {
+	if m.cfg.Mode == "endless" {
+		// identical payloads: only tag, capacity and shares are checked
+	} else if it.Seq != m.nextSeq[it.In] && !(rough && it.Seq > m.nextSeq[it.In] && it.Seq < m.written[it.In]) {
 		// under a rough stop an item read but not delivered is lost: what is
 		// delivered must still be an in-order duplicate-free subsequence (C16)
 		clause := "C02"
@@ -393,7 +399,7 @@ func newPrio(c Cfg, w *vrt.World) *explore.Instance {
 	// oracle share: the configured divider applied by the harness
 	m.share = map[uint]uint{}
 	dividerOf(c.Div)(c.P, c.H, m.share)
-	m.saturated = c.Mode == "saturate"
+	m.saturated = c.Mode == "saturate" || c.Mode == "endless"
 
 	var newErr error
 	capOf := func(i int) int {
@@ -435,6 +441,10 @@ func newPrio(c Cfg, w *vrt.World) *explore.Instance {
 			m.reg[st] = p
 			m.origin[i] = st
 			inMap[p] = ch
+			if c.Mode == "endless" {
+				vrt.Endless(ch, Item{i, 0})
+				continue
+			}
 			if n := nOf(i); n <= capOf(i) {
 				items := make([]Item, n)
 				for k := range items {
@@ -560,7 +570,7 @@ func newPrio(c Cfg, w *vrt.World) *explore.Instance {
 		// producers for inputs that are not prefilled
 		for i := range c.P {
 			n := nOf(i)
-			if n <= capOf(i) {
+			if n <= capOf(i) || c.Mode == "endless" {
 				continue
 			}
 			i := i
@@ -651,7 +661,11 @@ func newPrio(c Cfg, w *vrt.World) *explore.Instance {
 				cd := &cond{id: 0x4e1, ready: func() bool { return len(held) > 0 || receiverDone }}
 				n := 0
 				for budget == 0 || n < budget {
-					vrt.Mark(vrt.Mix(hashUints(held), uint64(n)))
+					cnt := uint64(n)
+					if budget == 0 {
+						cnt = 0 // unlimited releases: the count is not state
+					}
+					vrt.Mark(vrt.Mix(hashUints(held), cnt))
 					vrt.Block(cd)
 					if len(held) == 0 {
 						return
@@ -673,7 +687,7 @@ func newPrio(c Cfg, w *vrt.World) *explore.Instance {
 							break
 						}
 					}
-					vrt.Mark(vrt.Mix(hashUints(held), uint64(n), uint64(p), 7))
+					vrt.Mark(vrt.Mix(hashUints(held), cnt, uint64(p), 7))
 					env.release(p)
 					n++
 				}
@@ -692,7 +706,7 @@ func newPrio(c Cfg, w *vrt.World) *explore.Instance {
 		return m.terminal(w, out, totalItems, divw)
 	}
 	inst.Goal = func(w *vrt.World) bool {
-		if c.Mode == "open" || c.Mode == "saturate" || c.Mode == "alone" || c.Mode == "stingy" || c.Mode == "withhold" {
+		if c.Mode == "open" || c.Mode == "saturate" || c.Mode == "alone" || c.Mode == "stingy" || c.Mode == "withhold" || c.Mode == "endless" {
 			return true
 		}
 		if c.Mode == "idleopen" {
@@ -728,7 +742,7 @@ func newPrio(c Cfg, w *vrt.World) *explore.Instance {
 
 func (m *prioMon) terminal(w *vrt.World, out vrt.Outcome, totalItems int, divw *dividerWrap) string {
 	c := m.cfg
-	if c.Mode == "open" || c.Mode == "saturate" || c.Mode == "withhold" {
+	if c.Mode == "open" || c.Mode == "saturate" || c.Mode == "withhold" || c.Mode == "endless" {
 		return ""
 	}
 	if c.Mode == "alone" {
